@@ -5,6 +5,7 @@ import Upf.Model.LockFacts
 import Upf.Proofs.TeidWorld
 import Upf.Proofs.History
 import Upf.Proofs.AgentReply
+import Upf.Proofs.ModTeid
 /-!
 # C07 — UP-chosen identifiers are unique among live users
 
@@ -107,6 +108,14 @@ theorem refused_modification_releases_no_teid (cfg : Agent.Cfg) (w : Agent.World
     (hrej : (Agent.modify cfg w a r).reply.cause ≠ Agent.causeAccepted) :
     (Agent.modify cfg w a r).world.conns = w.conns ∧ (Agent.modify cfg w a r).world.teid = w.teid :=
   Agent.refused_modification_commits_nothing cfg w a r hrej
+
+/-- the Session Modification handler never takes a TEID: for EVERY request (any mix of IEs, CHOOSE flags included, accepted or
+refused) no free TEID becomes marked in use and the cursor stays where it was — a modification can only return TEIDs. So the only
+place a TEID is chosen is the establishment's PDR loop, which `alloc_fresh` / `establishment_keeps_chosen_teids_distinct` cover. -/
+theorem modification_allocates_no_teid (cfg : Agent.Cfg) (w : Agent.World) (a : Nat) (r : Agent.ModReq) :
+    (∀ x, (Agent.modify cfg w a r).world.teid.used x = true → w.teid.used x = true) ∧
+    (Agent.modify cfg w a r).world.teid.offset = w.teid.offset :=
+  Agent.modify_allocates_no_teid cfg w a r
 
 section
 open Agent
